@@ -475,15 +475,18 @@ func (s *Server) cmdAOF(msg *Message) (resp.Value, error) {
 }
 
 func (s *Server) liveAOF(pos int64, conn net.Conn, rd *PipelineReader, msg *Message) error {
-	s.mu.RLock()
+	// Open the log and register the reader in ONE exclusive section. If an
+	// AOFSHRINK swapped the files between the two steps, the reader would keep
+	// streaming the replaced file forever and never be disconnected.
+	s.mu.Lock()
 	f, err := os.Open(s.aof.Name())
-	s.mu.RUnlock()
+	if err == nil {
+		s.aofconnM[conn] = f
+	}
+	s.mu.Unlock()
 	if err != nil {
 		return err
 	}
-	s.mu.Lock()
-	s.aofconnM[conn] = f
-	s.mu.Unlock()
 	defer func() {
 		s.mu.Lock()
 		delete(s.aofconnM, conn)
